@@ -884,7 +884,7 @@ func TestC15Sign(t *testing.T) {
 	if err != nil {
 		t.Fatal(err)
 	}
-	nkeys := count(4, 12)
+	nkeys := count(24, 48) // enough keys for every combination of the two recovery ids of the initial signatures
 	signers := map[string]string{}
 	var names []string
 	for i := 0; i < nkeys; i++ {
